@@ -61,3 +61,121 @@ Example C03_race_witness :
   map (fun t => results_of t (hist s)) [0; 1; 2] =
     [[RBool false]; [RBool true]; [RBlocks; RClosed]].
 Proof. vm_compute. reflexivity. Qed.
+
+(** * Round "proofs 3": Copy(), metadata maps, contexts (Message/World.v: a world of any number
+    of messages made by NewMessage, &Message{} and Copy(); every message has its own C03 state
+    machine; metadata maps are references into a heap). *)
+From WM Require Import Message.World Message.WorldProofs.
+
+(** Every message is its own first-wins state machine: after ANY program over ANY number of
+    messages (creations, copies, settle calls on any of them, metadata writes, contexts), the
+    settlement of message [j] is what its own Ack/Nack/read calls, in order, make of the state
+    it had, and those calls returned exactly what [run] says. *)
+Theorem C03_settlement_is_per_message : forall ops w j, j < w_n w ->
+  let m0 := o_set (w_obj w j) in
+  o_set (w_obj (fst (wrun w ops)) j) = fst (run m0 (settle_proj j ops))
+  /\ settle_hist j ops (snd (wrun w ops))
+     = combine (settle_proj j ops) (snd (run m0 (settle_proj j ops))).
+Proof. exact settle_own. Qed.
+Print Assumptions C03_settlement_is_per_message.
+
+(** The acceptor applied to observed histories of real message worlds (checks/c03.py, command
+    c03world): every program of the model passes it — every message, copies and zero values
+    included, is first-wins on its own calls. *)
+Theorem C03_world_model_accepted : forall ops, world_monitor ops (snd (wrun wempty ops)) = true.
+Proof. exact world_accepted. Qed.
+Print Assumptions C03_world_model_accepted.
+
+(** Copy() of a message in ANY state (settled or not): a new message, Unsettled, with its own
+    two open channels, the same UUID, payload and metadata entries, no context, its own new
+    metadata map; every existing message — the source included — is untouched. *)
+Theorem C03_copy_is_fresh_unsettled : forall w i, i < w_n w ->
+  let w' := fst (wstep w (WCopy i)) in
+  let j := w_n w in
+  snd (wstep w (WCopy i)) = WId j
+  /\ w_n w' = S j
+  /\ o_set (w_obj w' j) = MS Unsettled COpen COpen false
+  /\ o_uuid (w_obj w' j) = o_uuid (w_obj w i)
+  /\ o_payload (w_obj w' j) = o_payload (w_obj w i)
+  /\ (forall k, meta_get w' j k = meta_get w i k)
+  /\ o_ctx (w_obj w' j) = 0%N
+  /\ o_meta (w_obj w' j) = Some (w_nm w)
+  /\ (forall i', i' < w_n w -> w_obj w' i' = w_obj w i').
+Proof. exact copy_fresh. Qed.
+Print Assumptions C03_copy_is_fresh_unsettled.
+
+(** Settling the copy never changes the original and vice versa: an Ack/Nack/read on message
+    [i] changes nothing but [i]'s settlement. *)
+Theorem C03_settle_touches_only_that_message : forall w i op, i < w_n w ->
+  let w' := fst (wstep w (WSettle i op)) in
+  (forall j, j <> i -> w_obj w' j = w_obj w j)
+  /\ o_uuid (w_obj w' i) = o_uuid (w_obj w i) /\ o_payload (w_obj w' i) = o_payload (w_obj w i)
+  /\ o_meta (w_obj w' i) = o_meta (w_obj w i) /\ o_ctx (w_obj w' i) = o_ctx (w_obj w i)
+  /\ w_meta w' = w_meta w /\ w_n w' = w_n w
+  /\ o_set (w_obj w' i) = fst (step (o_set (w_obj w i)) op).
+Proof. exact settle_touches_only_settlement. Qed.
+Print Assumptions C03_settle_touches_only_that_message.
+
+(** In every world a program can reach, no two messages share a metadata map: a Set through one
+    message (a copy, say) never shows through another (its source), and changes no message. *)
+Theorem C03_copy_metadata_not_shared : forall ops0 i j k v,
+  let w := fst (wrun wempty ops0) in
+  i < w_n w -> j < w_n w -> i <> j ->
+  let w' := fst (wstep w (WMetaSet i k v)) in
+  (forall k', meta_get w' j k' = meta_get w j k')
+  /\ (forall i', w_obj w' i' = w_obj w i')
+  /\ (o_meta (w_obj w i) <> None -> forall k', meta_get w' i k' = if N.eqb k' k then v else meta_get w i k').
+Proof. exact metadata_not_shared. Qed.
+Print Assumptions C03_copy_metadata_not_shared.
+
+(** SetContext / Context are irrelevant for settlement: remove every SetContext/Context call
+    from a program and every message ends in the same settlement, each of its calls returning
+    the same result; a message nobody set a context on reports Background (0). *)
+Theorem C03_context_irrelevant : forall ops w j, j < w_n w ->
+  o_set (w_obj (fst (wrun w ops)) j) = o_set (w_obj (fst (wrun w (strip_ctx ops))) j)
+  /\ settle_hist j ops (snd (wrun w ops)) = settle_hist j (strip_ctx ops) (snd (wrun w (strip_ctx ops))).
+Proof. exact context_irrelevant. Qed.
+Print Assumptions C03_context_irrelevant.
+
+Theorem C03_context_default_background : forall ops u p,
+  let w := fst (wrun wempty ops) in
+  snd (wrun w [WNew u p; WGetCtx (w_n w)]) = [WId (w_n w); WVal 0%N].
+Proof. exact context_default_background. Qed.
+Print Assumptions C03_context_default_background.
+
+(** Non-vacuity: a nacked message with metadata and a context is copied; the copy can be acked,
+    has the entry, no context; a Set on the copy does not show in the source, which stays nacked. *)
+Example C03_copy_witness :
+  snd (wrun wempty [WNew 7 [1; 2]; WMetaSet 0 5 6; WSetCtx 0 9; WSettle 0 OpNack; WCopy 0;
+                    WSettle 1 OpAck; WMetaGet 1 5; WGetCtx 1; WMetaSet 1 5 8; WMetaGet 0 5;
+                    WSettle 0 OpAck; WSettle 1 OpReadAcked; WContent 1; WGetCtx 0])%N
+  = [WId 0; WUnit; WUnit; WRes (RBool true); WId 1;
+     WRes (RBool true); WVal 6; WVal 0; WUnit; WVal 6;
+     WRes (RBool false); WRes RClosed; WCont 7 [1; 2]; WVal 9]%N.
+Proof. vm_compute. reflexivity. Qed.
+
+(** * Round "proofs 3": the linearizability acceptor is linked to the model.
+    [lin_ok] (Message/Monitor.v) is what judges the stamped call histories of the implementation
+    in the concurrent scenarios.  [calls_of] (Message/ConcCalls.v) reads the same kind of history
+    off a model run: stamp = position in the ghost history, a call = (stamp of its invocation,
+    stamp of its response, operation, result).  For every constructor, any number of goroutines,
+    any programs and any schedule: whenever every thread is between calls, the acceptor accepts. *)
+From WM Require Import Message.Monitor Message.ConcCalls Message.LinOkProofs.
+
+Theorem C03_lin_ok_model_accepted : forall (c : ctor) (progs : tid -> list op) (sched : list tid),
+  let s := crun (cinit c progs) sched in
+  quiescent s -> lin_ok (calls_of (hist s)) = true.
+Proof. exact lin_ok_model_accepted. Qed.
+Print Assumptions C03_lin_ok_model_accepted.
+
+(** non-vacuity: the racing execution of [C03_race_witness], run to quiescence: four completed
+    calls with overlapping intervals, accepted *)
+Example C03_lin_ok_witness :
+  let progs := fun t => match t with 0 => [OpAck] | 1 => [OpNack] | 2 => [OpReadNacked; OpReadNacked] | _ => [] end in
+  let s := crun (cinit CtorZero progs) [0; 1; 2; 1; 1; 0; 1; 2; 1; 0; 0; 0] in
+  (forallb (fun t => match tpc (thr s t) with PIdle => true | _ => false end) [0; 1; 2; 3],
+   calls_of (hist s), lin_ok (calls_of (hist s)))
+  = (true,
+     [Call 3 5 OpReadNacked RBlocks; Call 7 9 OpReadNacked RClosed;
+      Call 2 10 OpNack (RBool true); Call 1 12 OpAck (RBool false)]%N, true).
+Proof. vm_compute. reflexivity. Qed.
